@@ -31,12 +31,12 @@ RULE = ("cases: fitter configurations (grid, law, A_V range, format/memmap/filte
         "fits with condition number <= 1e4")
 ASSUMPTIONS = ["finite value alphabets for real-valued inputs (see DESIGN.md section 0)",
                "condition number of the regression <= 1e4", "limits closer than 1e-9 dex to the fitted model are ambiguous"]
-REQUIRED_CLASSES = ['law-in-other-unit', 'two-limits-different-confidence', 'av-interior', 'av-clamped-lo', 'av-clamped-hi', 'av-pinned', 'no-limit', 'limit-satisfied', 'limit-violated',
+REQUIRED_CLASSES = ['gzipped-convolved-files', 'law-in-other-unit', 'two-limits-different-confidence', 'av-interior', 'av-clamped-lo', 'av-clamped-hi', 'av-pinned', 'no-limit', 'limit-satisfied', 'limit-violated',
                     'limit-violated-conf1', 'k0-band-fitted', 'duplicate-model-tied', 'float32-path', 'flag4-fitted', 'negative-range']
 TIMEOUT = {'quick': 300, 'thorough': 1800}
 
 RANGES = [(0.0, 40.0), (0.0, 0.0), (2.5, 2.5), (5.0, 7.0), (-3.0, -1.0), (0.0, 1.0)]
-VARIANTS = [('v1', False, False), ('v2', True, False), ('v2', False, False), ('v2', True, True)]   # fmt, memmap, filters given as wavelengths
+VARIANTS = [('v1', False, False), ('v2', True, False), ('v2', False, False), ('v2', True, True), ('v1gz', False, False)]   # fmt (gz: gzipped convolved files), memmap, filters given as wavelengths
 BANDSETS = {2: ['B1', 'B3'], 3: ['B1', 'B3', 'B5'], 4: ['B1', 'B2', 'B4', 'B5'], 5: ['B1', 'B2', 'B3', 'B4', 'B5']}
 
 
@@ -46,6 +46,8 @@ def setup(tier, seed):
     ns = [2, 3, 4] if tier == 'quick' else [2, 3, 4, 5]
     for g, law, ir, iv, n in itertools.product(grids, ['power', 'three', 'nonmono', 'nonmono@nm'], range(len(RANGES)), range(len(VARIANTS)), ns):
         if tier == 'quick' and n == 2 and (iv != 0 or g != 0):
+            continue
+        if iv == 4 and (g != 0 or n != 3 or law not in ('power', 'three')):
             continue
         if law == 'nonmono@nm' and (iv not in (0, 1) or g != 0):
             continue
@@ -79,7 +81,9 @@ def run_case(ctx, case, rec, d):
     flux_all = fc.grid2d(seed * 10 + case['grid'], n_models=6, law=law, bands=fc.ALL_BANDS, special=True)
     cols = [fc.ALL_BANDS.index(b) for b in bands]
     names = fc.names_for(6)
-    spec = {'fmt': fmt, 'names': names, 'bands': fc.ALL_BANDS, 'flux': flux_all, 'flat_single': (case['grid'] % 2 == 0)}
+    spec = {'fmt': fmt.replace('gz', ''), 'names': names, 'bands': fc.ALL_BANDS, 'flux': flux_all, 'flat_single': (case['grid'] % 2 == 0), 'gz': fmt.endswith('gz')}
+    if fmt.endswith('gz'):
+        rec.cls('gzipped-convolved-files')
     md = fc.build_package(d, 'pkg', spec)
     fitter = fc.make_fitter(md, bands, law, (avlo, avhi), memmap=memmap, by_wavelength=bywav)
     f32 = fc.observed_f32(fitter)
